@@ -25,6 +25,23 @@ def resolve_all(p: Program, expr: ast.AST, inst, _depth: int = 0) -> List[Tuple[
                 if val is not None:
                     out.extend(resolve_all(p, val, owner, _depth + 1))
             return out
+        if owner is not None and defs and len(defs) == 1 and defs[0][0] == 'unpack' and defs[0][1] == 'assign' and len(defs[0][3]) == 1:
+            # `a, b = helper(...)` / `a, b = x, y`: the element of the returned / displayed tuple
+            idx = defs[0][3][0]
+            out = []
+            for v, vi in resolve_all(p, defs[0][2], owner, _depth + 1):
+                if isinstance(v, ast.Tuple) and idx < len(v.elts):
+                    out.extend(resolve_all(p, v.elts[idx], vi, _depth + 1))
+                elif isinstance(v, ast.Call):
+                    from .cfg import Builder, Inst
+                    for t in FuncEnv.of(p, vi.unit).resolve_call(v):
+                        if t[0] == 'func' and not t[1].is_async and t[1] not in vi.stack():
+                            callee = Inst(t[1], vi, v, Builder.bind(None, v, t[1], vi, t[2], None, None))
+                            for n in FuncEnv.of(p, t[1]).own_nodes():
+                                if isinstance(n, ast.Return) and isinstance(n.value, ast.Tuple) and idx < len(n.value.elts):
+                                    out.extend(resolve_all(p, n.value.elts[idx], callee, _depth + 1))
+            if out:
+                return out
     return [(e, i)]
 
 
@@ -96,7 +113,11 @@ class Ctx:
     # ------------------------------------------------------------------ task roots
     def spawn_sites(self, g: Graph) -> List[Tuple[Ev, List[Tuple[FuncUnit, ast.Call, Inst]]]]:
         """SPAWN events of a graph with the coroutine functions whose objects they receive."""
+        cached = getattr(g, '_spawn_sites', None)
+        if cached is not None:
+            return cached
         out = []
+        g._spawn_sites = out
         for ev in g.events('call'):
             if not self.roles.spawn(ev):
                 continue
@@ -111,15 +132,44 @@ class Ctx:
                     continue
             else:
                 arg = c.args[0]
-            roots = []
-            for e, i in resolve_all(self.p, arg, ev.inst):
-                if isinstance(e, ast.Call):
-                    env = FuncEnv.of(self.p, i.unit)
-                    for t in env.resolve_call(e):
-                        if t[0] == 'func' and t[1].is_async:
-                            roots.append((t[1], e, i))
-            out.append((ev, roots))
+            out.append((ev, self._coro_roots(g, arg, ev.inst)))
         return out
+
+    def _coro_roots(self, g: Graph, arg: ast.AST, inst, _depth: int = 0) -> list:
+        """The coroutine functions whose coroutine objects may flow into `arg`: direct calls of async functions,
+        and - through the inlined activation - the values returned by a synchronous helper that chooses one."""
+        roots = []
+        for e, i in resolve_all(self.p, arg, inst):
+            if isinstance(e, ast.IfExp):
+                roots.extend(self._coro_roots(g, e.body, i, _depth + 1))
+                roots.extend(self._coro_roots(g, e.orelse, i, _depth + 1))
+                continue
+            if not isinstance(e, ast.Call):
+                continue
+            env = FuncEnv.of(self.p, i.unit)
+            for t in env.resolve_call(e):
+                if t[0] != 'func':
+                    continue
+                if t[1].is_async:
+                    roots.append((t[1], e, i))
+                elif _depth < 4:
+                    subs = [x for x in self._insts(g) if x.parent is i and x.call is e and x.unit is t[1]]
+                    for sub in subs:
+                        for n in FuncEnv.of(self.p, t[1]).own_nodes():
+                            if isinstance(n, ast.Return) and n.value is not None:
+                                roots.extend(self._coro_roots(g, n.value, sub, _depth + 1))
+        return roots
+
+    @staticmethod
+    def _insts(g: Graph) -> list:
+        cache = getattr(g, '_all_insts', None)
+        if cache is None:
+            seen = {}
+            for ev in g.evs:
+                seen[ev.inst.iid] = ev.inst
+            cache = list(seen.values())
+            g._all_insts = cache
+        return cache
 
     def task_roots(self) -> Dict[str, List[Tuple[Graph, Ev]]]:
         """fid of every coroutine function that is run as a task on the run path -> spawn sites."""
